@@ -683,6 +683,21 @@ def bi_old(ex, e):
         ex.env = saved
 
 
+def bi_at_iteration_start(ex, e):
+    """at_iteration_start(k, expr): expr evaluated with the locals as they were when the current
+    iteration of loop k began (proof hints only)"""
+    k = e.args[0].value
+    envs = getattr(ex, 'iter_envs', {})
+    if k not in envs:
+        raise Unsupported('at_iteration_start(%r, ...) outside loop %r' % (k, k))
+    saved = ex.env
+    ex.env = envs[k]
+    try:
+        return ex.ev(e.args[1])
+    finally:
+        ex.env = saved
+
+
 def _tester(fn):
     def h(ex, e):
         return mk_bool(fn(ex.evv(e.args[0])))
@@ -759,43 +774,75 @@ def bi_in_re(ex, e):
     return mk_bool(z3.InRe(s, regex.from_python(e.args[1].value)))
 
 
-def bi_forall_idx(ex, e):
-    """forall_idx(seq, lambda i, x: P) -- universally quantified over indices"""
+def _concat_parts(seq):
+    """the parts of a concatenation, flattened: [(term, is_unit_element)]"""
+    if z3.is_app(seq) and seq.decl().kind() == z3.Z3_OP_SEQ_CONCAT:
+        out = []
+        for c in seq.children():
+            out.extend(_concat_parts(c))
+        return out
+    return [seq]
+
+
+def _quantify_idx(ex, e, universal):
+    """forall_idx / exists_idx over a sequence; a concatenation is quantified part by part (the
+    statement about A + [x] is the statement about A and the one about x), which is what the
+    solvers do not find by themselves"""
     seq = seq_term(ex, ex.ev(e.args[0]), e)
     lam = e.args[1]
-    i = fresh('i', vl.Int)
-    saved = dict(ex.env)
     names = [a.arg for a in lam.args.args]
-    ex.env[names[0]] = V(VInt(i))
-    if len(names) > 1:
-        ex.env[names[1]] = V(seq[i])
-    sm = ex.spec_mode
-    ex.spec_mode = True
-    try:
-        body = as_bool(ex.ev(lam.body))
-    finally:
-        ex.spec_mode = sm
-        ex.env = saved
-    return mk_bool(z3.ForAll([i], z3.Implies(z3.And(i >= 0, i < z3.Length(seq)), body)))
+
+    def body_at(idx, elem):
+        idx = vl.simp(idx)
+        ex.eng.nonneg.add(idx.get_id())
+        ex.eng._nonneg_keep.append(idx)
+        saved = dict(ex.env)
+        ex.env[names[0]] = V(VInt(idx))
+        if len(names) > 1:
+            ex.env[names[1]] = V(elem)
+        sm = ex.spec_mode
+        ex.spec_mode = True
+        try:
+            return as_bool(ex.ev(lam.body))
+        finally:
+            ex.spec_mode = sm
+            ex.env = saved
+
+    parts = _concat_parts(seq)
+    if len(parts) == 1:
+        i = fresh('i', vl.Int)
+        body = body_at(i, seq[i])
+        if universal:
+            return mk_bool(z3.ForAll([i], z3.Implies(z3.And(i >= 0, i < z3.Length(seq)), body)))
+        return mk_bool(z3.Exists([i], z3.And(i >= 0, i < z3.Length(seq), body)))
+    out = []
+    off = z3.IntVal(0)
+    for p in parts:
+        if z3.is_app(p) and p.decl().kind() == z3.Z3_OP_SEQ_UNIT:
+            out.append(body_at(off, p.arg(0)))
+            off = off + 1
+        elif z3.is_app(p) and p.decl().kind() == z3.Z3_OP_SEQ_EMPTY:
+            continue
+        else:
+            i = fresh('i', vl.Int)
+            body = body_at(off + i, p[i])
+            if universal:
+                out.append(z3.ForAll([i], z3.Implies(z3.And(i >= 0, i < z3.Length(p)), body)))
+            else:
+                out.append(z3.Exists([i], z3.And(i >= 0, i < z3.Length(p), body)))
+            off = off + z3.Length(p)
+    if not out:
+        return mk_bool(z3.BoolVal(universal))
+    return mk_bool(z3.And(*out) if universal else z3.Or(*out))
+
+
+def bi_forall_idx(ex, e):
+    """forall_idx(seq, lambda i, x: P) -- universally quantified over indices"""
+    return _quantify_idx(ex, e, True)
 
 
 def bi_exists_idx(ex, e):
-    seq = seq_term(ex, ex.ev(e.args[0]), e)
-    lam = e.args[1]
-    i = fresh('i', vl.Int)
-    saved = dict(ex.env)
-    names = [a.arg for a in lam.args.args]
-    ex.env[names[0]] = V(VInt(i))
-    if len(names) > 1:
-        ex.env[names[1]] = V(seq[i])
-    sm = ex.spec_mode
-    ex.spec_mode = True
-    try:
-        body = as_bool(ex.ev(lam.body))
-    finally:
-        ex.spec_mode = sm
-        ex.env = saved
-    return mk_bool(z3.Exists([i], z3.And(i >= 0, i < z3.Length(seq), body)))
+    return _quantify_idx(ex, e, False)
 
 
 def bi_set_of_seq(ex, e):
